@@ -75,7 +75,7 @@ def impl(case):
         if case["fill"] is not None:
             kw["fill_value"] = case["fill"]
         if case["withbb"] is not None:
-            kw["with_bounding_box"] = case["withbb"]
+            kw["with_bounding_box"] = {"np": np.bool_(case["withbb"]), "int": int(case["withbb"])}.get(case.get("flag_form"), case["withbb"])
         try:
             inv = _tup(w.invert(*world, **kw))
             res["inv"] = [[_c(v) for v in np.asarray(x, dtype=float)] for x in inv]
@@ -289,7 +289,8 @@ def gen(rng, tier):
             pts.append(pt)
         yield {"wcs": "affine", "path": "analytic", "ab": ab, "box": box, "pix": pts, "fill": rng.choice([None, None, -1.0, 0.0, float("inf")]),
                "withbb": rng.choice([None, None, True, False]), "nan_at": [rng.randrange(7)] if rng.random() < 0.4 else [],
-               "inf_at": [[rng.randrange(7), rng.choice([-1, 1])]] if rng.random() < 0.15 else [], "bad_axis": rng.randrange(dim)}
+               "inf_at": [[rng.randrange(7), rng.choice([-1, 1])]] if rng.random() < 0.15 else [], "bad_axis": rng.randrange(dim),
+               "flag_form": rng.choice([None, None, "np", "int"])}
     for _ in range(30 if q else 1200):
         distort = rng.random() < 0.7
         p = S.gen_params(rng, distortion=distort, aligned=True)
